@@ -38,12 +38,13 @@ def generate(rng, tier):
         rng.shuffle(rows)
         fdes = []
         for i, r in enumerate(rows):
-            fdes.append(dict(start=0x1000 + 0x100 * i, len=0x100, rows=[(0, r), (0x80, suites.rand_row(rng, arch))]))
+            # every other FDE leaves a gap (addresses +0xc0..+0xff are covered by no FDE)
+            fdes.append(dict(start=0x1000 + 0x100 * i, len=0x100 if i % 2 else 0xc0, rows=[(0, r), (0x80, suites.rand_row(rng, arch))]))
         pres = ["hdr", "eh", "debug"][rep % 3]
         s.module_dwarf("M", 0x10000, 0x10000 + 0x1000 + 0x100 * len(rows) + 0x100, 0x10000, 0, pres, fdes, rng, shuffle=True)
         s.add("new U"); s.add("add U M")
         base, nw = 0x7000, 64
-        code = [0x11000 + 0x100 * i + rng.choice([1, 0x10, 0x81, 0x90]) for i in range(len(rows))]
+        code = [0x11000 + 0x100 * i + rng.choice([1, 0x10, 0x81, 0x90, 0xc1, 0xe0]) for i in range(len(rows))]
         for mi in range(4):
             pairs = []
             for i in range(nw):
@@ -58,11 +59,17 @@ def generate(rng, tier):
                 else:
                     v = 0
                 pairs.append((a, v))
+            if mi % 2 == 1:
+                # two frame records pointing at each other, each with a code address as return address
+                d = dict(pairs)
+                b1, b2 = base + 8 * 10, base + 8 * 40
+                d[b1] = b2; d[b2] = b1; d[b1 + 8] = rng.choice(code); d[b2 + 8] = rng.choice(code)
+                pairs = sorted(d.items())
             s.mem("W%d" % mi, pairs)
             for st in range(6):
                 pc = rng.choice(code) - 1
                 sp = base + 8 * rng.below(nw)
-                fp = rng.choice([base + 8 * rng.below(nw), sp, 0])
+                fp = rng.choice([base + 8 * rng.below(nw), sp, 0, base + 8 * 10, base + 8 * 40])
                 regs = s.regs_x86(pc, sp, fp) if arch == "x86" else s.regs_a64(M64, rng.choice(code), sp, fp)
                 s.add("newcache F")
                 ln = s.add("trace U F %s %s W%d %d" % (hx(pc), regs, mi, 4 * nw + 16), tag="%s:adv" % arch)
